@@ -4,6 +4,7 @@ import AslProofs.Codec
 import AslProofs.CodecExt
 import AslProofs.Sha1
 import AslProofs.Sha1Std
+import AslProofs.Sha1Raw
 import AslProofs.Query3
 /-!
 # C15 — Base64, hex, percent-encoding and SHA-1 match their standards on all inputs
@@ -303,6 +304,28 @@ theorem sha1_eq_standard (m : List UInt8) : AslModel.Sha1.Impl.hash m = AslModel
 theorem sha1_streaming_eq_standard (ds : List (List UInt8)) :
     AslModel.Sha1.Impl.hashChunks ds = AslModel.Sha1.Std.sha1 ds.flatten := by
   rw [AslProofs.Sha1.hashChunks_eq_fips, AslProofs.Sha1Std.fips_eq_std]
+
+/-- **sha1_object_streaming_eq_standard.**  The `SHA1` object as the source keeps it — all 64 bytes of `buffer` with whatever
+    earlier blocks left in them, `j` recomputed from `count[0]` on every call, the two `memcpy`s, the `transform(&data[i])` loop
+    over offsets, the two 32-bit count words with their carry test, `end()` building `finalcount` from the words and padding
+    through its own one-byte `update`s while `(count[0] & 504) != 448` — driven by ANY sequence of `update(data, len)` calls
+    (`int len ≥ 0`; empty pieces, pieces ending inside a block, pieces spanning blocks) and `end()`, returns FIPS 180-4 SHA-1
+    *as printed* of the concatenation -/
+theorem sha1_object_streaming_eq_standard (ds : List (List UInt8)) (hd : ∀ d ∈ ds, d.length < 2 ^ 31) :
+    AslModel.Sha1.Raw.hashChunks ds = AslModel.Sha1.Std.sha1 ds.flatten := by
+  rw [AslProofs.Sha1Raw.raw_hashChunks_eq ds hd, AslProofs.Sha1.hashChunks_eq_fips, AslProofs.Sha1Std.fips_eq_std]
+
+example : ∀ d ∈ [[97], [], List.replicate 70 98, [99]], d.length < 2 ^ 31 := by decide
+
+/-- `SHA1::hash(data, len)` on that object -/
+theorem sha1_object_hash_eq_standard (m : List UInt8) (hm : m.length < 2 ^ 31) :
+    AslModel.Sha1.Raw.hash m = AslModel.Sha1.Std.sha1 m := by
+  have := sha1_object_streaming_eq_standard [m] (by simpa using hm)
+  simpa [AslModel.Sha1.Raw.hashChunks, AslModel.Sha1.Raw.hash] using this
+
+/-- the object model is the streaming-context model, call by call -/
+theorem sha1_object_refines_context (ds : List (List UInt8)) (hd : ∀ d ∈ ds, d.length < 2 ^ 31) :
+    AslModel.Sha1.Raw.hashChunks ds = AslModel.Sha1.Impl.hashChunks ds := AslProofs.Sha1Raw.raw_hashChunks_eq ds hd
 
 /-- the code's boolean round functions `(w&(x^y))^y`, `w^x^y`, `((w|x)&y)|(w&x)` are Ch, Parity and Maj, bit for bit -/
 theorem sha1_round_functions_standard (t : Nat) (b c d : UInt32) :
